@@ -41,7 +41,8 @@
 //                                            data (want = hand-written loops; compared only if exact=1, i.e. dyadic data)
 //          RUN id=<n> m=<method> fam=<M|E|U|O|X|Y> back=<eigen|hand|pre|tab|pretab> src=<eigen|hand> order=<str> entry=<range|using>
 //              d=<int> k=<int> seed=<int> nm=<brute|vptree|covertree> em=<dense|randomized> wd=<s> [off=<shift of
-//              the index sequence, fam U/Y only>] [..]
+//              the index sequence, fam U/Y only>] [perm=<seed: the integers of the index sequence are permuted, fam U/Y only>]
+//              [min=1: only method and target dimension are set, all other keywords left to the library defaults] [..]
 // Output:  C <id>                          marker before the call
 //          R <id> OK <rows> <cols> <hex...> | <12 counters role-major K,D,F x kernel,distance,vector,dimension> <obj_as_index>
 //                 <index_as_obj> <foreign: a callback received something that is not an element of [begin,end)>
@@ -200,9 +201,23 @@ static inline IndexType in_range(long i)
     }
     return (IndexType)i;
 }
+// ... and PERMUTED (element i of the data is the integer sigma(i) + g_index_offset; g_inv = sigma^-1): the order of the
+// objects' VALUES is then unrelated to their positions, so code that compares / sorts / breaks ties by the object instead
+// of by the position (or only through callback values) gives another result than on the identity sequence
+static std::vector<IndexType> g_inv;
 static inline IndexType index_of(IndexType i)
 {
-    return in_range((long)i - (long)g_index_offset);
+    long p = (long)i - (long)g_index_offset;
+    if (!g_inv.empty())
+    {
+        if (p < 0 || p >= (long)g_inv.size())
+        {
+            g_foreign++;
+            return 0;
+        }
+        p = g_inv[p];
+    }
+    return in_range(p);
 }
 static inline IndexType index_of(const Obj& o)
 {
@@ -779,7 +794,15 @@ int main()
         ParametersSet ps;
         ps.add(method = *m);
         ps.add(target_dimension = (IndexType)atoi(kv["d"].c_str()));
-        ps.add(num_neighbors = (IndexType)atoi(kv["k"].c_str()));
+        // min=1: ONLY the method and the target dimension are given; every other keyword is left to the library's defaults
+        // (the call forms must agree there too: same defaults, same refusals)
+        const bool minimal = kv.count("min") && kv["min"] == "1";
+        if (minimal)
+            kv.erase("lr"), kv.erase("perp"), kv.erase("theta"), kv.erase("sq"), kv.erase("maxit"), kv.erase("width"),
+                kv.erase("ts"), kv.erase("speg"), kv.erase("spen"), kv.erase("spetol"), kv.erase("fae"), kv.erase("cc"),
+                kv["nm"] = "", kv["em"] = "";
+        else
+            ps.add(num_neighbors = (IndexType)atoi(kv["k"].c_str()));
         const std::string nm = kv["nm"], em = kv["em"];
         if (nm == "brute")
             ps.add(neighbors_method = Brute);
@@ -831,9 +854,25 @@ int main()
         g_index_offset = (fam == "U" || fam == "Y") && kv.count("off") ? (IndexType)atoi(kv["off"].c_str()) : 0;
         std::vector<IndexType> idx(N);
         std::vector<Obj> objs(N);
+        g_inv.clear();
+        std::vector<IndexType> sigma(N);
+        for (int i = 0; i < N; i++)
+            sigma[i] = i;
+        if ((fam == "U" || fam == "Y") && kv.count("perm") && atol(kv["perm"].c_str()) != 0)
+        {
+            unsigned long long st = (unsigned long long)atol(kv["perm"].c_str()) * 6364136223846793005ULL + 1442695040888963407ULL;
+            for (int i = N - 1; i > 0; i--)
+            {
+                st = st * 6364136223846793005ULL + 1442695040888963407ULL;
+                std::swap(sigma[i], sigma[(st >> 33) % (unsigned long long)(i + 1)]);
+            }
+            g_inv.resize(N);
+            for (int i = 0; i < N; i++)
+                g_inv[sigma[i]] = i;
+        }
         for (int i = 0; i < N; i++)
         {
-            idx[i] = i + g_index_offset;
+            idx[i] = sigma[i] + g_index_offset;
             objs[i].key = 1000 + 7L * i;
             objs[i].decoy = N - 1 - i;
         }
